@@ -143,13 +143,13 @@ def rand_query(rng, g):
 
 def cases(rng: random.Random, tier: str):
     out = [dict(c) for c in CORPUS] + C_load_corpus()
-    n_one = 2200 if tier == "quick" else 16000
+    n_one = 9000 if tier == "quick" else 60000
     for _ in range(n_one):
         g = rand_admg(rng)
         a, b, Cs = rand_query(rng, g)
         out.append({"kind": "one", "g": g, "a": a, "b": b, "C": Cs, "shuffle_seed": rng.randrange(1 << 30)})
     # malformed / out-of-scope stream
-    for _ in range(150 if tier == "quick" else 1200):
+    for _ in range(400 if tier == "quick" else 3000):
         g = G.rand_graph(rng, 1, 6, acyclic=rng.random() < 0.4)
         V = G.all_nodes(g)
         if not V:
@@ -166,7 +166,7 @@ def cases(rng: random.Random, tier: str):
             Cs = Cs + [92]
         out.append({"kind": "one", "g": g, "a": a, "b": b, "C": Cs, "shuffle_seed": rng.randrange(1 << 30)})
     # verdict tables
-    for _ in range(60 if tier == "quick" else 500):
+    for _ in range(200 if tier == "quick" else 1500):
         out.append({"kind": "table", "g": rand_admg(rng, 2, 4 if tier == "quick" else 5)})
     if tier == "thorough":
         for k in (2, 3):
